@@ -141,11 +141,11 @@ func (p c19) Exec(t *core.Trace) *core.Result {
 // ---------------------------------------------------------------- FAT attributes
 
 type fatAttr struct {
-	dir                                bool
+	dir                               bool
 	hidden, system, readonly, archive bool
-	archiveKnown                       bool
-	mtime                              time.Time
-	mtimeKnown                         bool
+	archiveKnown                      bool
+	mtime                             time.Time
+	mtimeKnown                        bool
 }
 
 func execFatAttrs(t *core.Trace) *core.Result {
@@ -359,14 +359,14 @@ func execFatAttrs(t *core.Trace) *core.Result {
 // ---------------------------------------------------------------- workspace metadata (squashfs, ISO Rock Ridge)
 
 type wsMeta struct {
-	path   string
-	dir    bool
-	link   string
-	mode   os.FileMode // permission bits + setuid/setgid/sticky
-	uid    uint32
-	gid    uint32
-	mtime  time.Time
-	data   []byte
+	path  string
+	dir   bool
+	link  string
+	mode  os.FileMode // permission bits + setuid/setgid/sticky
+	uid   uint32
+	gid   uint32
+	mtime time.Time
+	data  []byte
 }
 
 func execWorkspaceMeta(t *core.Trace) *core.Result {
